@@ -111,6 +111,11 @@ def _bvp_case(arg):
     q = eval_points(seed)
     if tfkind == "laguerre":
         q = q[np.linalg.norm(q - CENTRE, axis=1) < 5]
+    elif include_origin:
+        # "at arbitrary points": also points very close to (not on) the grid centre, on both sides of every "is zero"
+        # threshold one might use for r (added after seeded change C16-G: np.isclose(r, 0) zeroed u/r within 1e-8 bohr)
+        d = np.array([0.6, -0.48, 0.64])
+        q = np.vstack([q, CENTRE + np.outer([1e-3, 1e-6, 5e-9, 2e-10, 1e-12], d)])
     boundary = None if boundary_kind == "none" else float(1.0 * np.sqrt(4 * np.pi))
     snap = rho.copy()
     res.count()
